@@ -26,6 +26,8 @@ type Workload struct {
 	InProgress int   `json:"in_progress"` // op that was running when the process died (-1: none)
 	Durable    []int `json:"durable"`     // blocks acknowledged before the last completed leveldb commit
 	Clock      int64 `json:"clock"`
+	// ChildTips[i]: the tip hash the crashed process reported when it acknowledged operation i
+	ChildTips []string `json:"child_tips"`
 	// RedoFrom: operations before this index were acknowledged before the last completed leveldb commit (durable)
 	RedoFrom int `json:"redo_from"`
 	// RecoverUtxoCache, when non-zero, is the utxo cache size of the recovery runs (an operator may restart with
